@@ -25,9 +25,13 @@ def gen_case(seed: int, tier: str, index: int) -> Dict[str, Any]:
     snaps = snapshot_files()
     snap = snaps[index % len(snaps)].split("/")[-1]
     n = rng.randint(10, 30) if tier == "quick" else rng.randint(15, 60)
+    long_history = index % 8 == 5
+    if long_history:
+        n = rng.randint(180, 260)      # more than a full cycle (64) of command sequence numbers on one connection
     plan = []
     for _ in range(n):
-        plan.append({"op": rng.choice(CMDS), "dev": rng.randrange(8), "arg": rng.randrange(1 << 16), "gap": rng.choice([0.0, 0.3, 1.0, 3.0, 10.0, 45.0]),
+        plan.append({"op": rng.choice(CMDS), "dev": rng.randrange(8), "arg": rng.randrange(1 << 16),
+                     "gap": rng.choice([0.0, 0.3, 1.0, 3.0, 10.0, 45.0]) if not long_history else rng.choice([0.0, 0.3, 1.0]),
                      "overlap": rng.random() < 0.1})
     # make sure every on/off device is exercised from both states
     for d in range(4):
@@ -275,6 +279,8 @@ async def scenario(world: WorldA) -> None:
         if spa.struct.status_block != model.structure.status_block:
             diff = [i for i in range(1024) if spa.struct.status_block[i] != model.structure.status_block[i]]
             world.violate(PROP, "readback", f"after the command history the client block differs from the spa's at {diff[:8]}")
+    if len([c for c in model.commands if c["kind"] == "spack" and not c.get("dup")]) > 64:
+        res.probe("more_than_a_full_cycle_of_pack_commands")
     res.nontrivial = res.stats.get("commands", 0) > 0
     res.shape = format(mix(0, repr(sorted(res.probes.items()))), "x")
     res.sample = {"snapshot": cfg["snapshot"], "commands": int(res.stats.get("commands", 0)), "first": world.case["plan"][:5]}
@@ -314,7 +320,7 @@ ASSUMPTIONS = [
     "temperature read-back is compared within one raw unit (1/18 C or 0.1 F); exact raw arithmetic is C14's business",
     "SPACK/SETWC layouts are decoded independently in the harness",
 ]
-PROBES = ["command_while_another_in_flight", "in_active_mode", "in_idle_mode", "eco_on", "eco_off", "watercare_index", "watercare_label",
+PROBES = ["more_than_a_full_cycle_of_pack_commands", "command_while_another_in_flight", "in_active_mode", "in_idle_mode", "eco_on", "eco_off", "watercare_index", "watercare_label",
           "on_from_off:GeckoLight", "off_from_on:GeckoLight", "on_when_already:GeckoLight", "off_when_already:GeckoLight",
           "on_from_off:GeckoBlower", "off_from_on:GeckoBlower", "target_temp_C", "target_temp_F"]
 N_QUICK = 68
